@@ -215,3 +215,11 @@ TEXT["C20"].update(
         "Deductive (unbounded): the listing has exactly one formatted entry per lease returned by get_leases, for any number of leases; json_string (the only place where client-chosen text enters the listing) returns a JSON string literal per RFC 8259 section 7 for EVERY input string: "
         "quotation marks, reverse solidus and control characters escaped as \\\" \\\\ \\uXXXX, nothing else altered (machine-checked recogniser lemma)."),
     note="NOT decided: the text core::fmt produces for the address, the hex client id and the integers, and the punctuation of the enclosing format strings (dropped by R4). update_metrics gauge wiring not under contract. Gauge boundary expiry == now: engine B, bounded.")
+
+TEXT["C04"].update(
+    technique="Verus contract on DNSPkt::serialise_with_size (loop invariants over the three section loops) + decoder contract bounding every decoded name to 255 octets + emission-point preconditions on the UDP send stub and the TCP write stub (R9 slices of run_udp / run_tcp)",
+    level=TEXT["C04"]["level"].replace("length <= size unless no record is kept", "length <= size ALWAYS (header + question are at most 12+255+4 octets because the decoder, proved, rejects names over 255 octets)")
+        + " TCP (slice of run_tcp): the octets written are a two-octet big-endian length followed by exactly that many octets, which are the reply encoded with a limit of at least 65535 (so never truncated when it fits).",
+    note="Assumed: push_compressed_domain appends between 1 and labels+1 octets (LinkedList dictionary outside Verus; Kani-bounded), section lengths fit 16-bit counts, Vec::splice / Vec::extend exact semantics (R11, R11b), replies handed to the serialiser are pkt_wf. "
+         "Not decided: that each kept record re-parses as one record (C14); that a dropped record really did not fit (needs the octet-exact encoding). Defect D04b (names over 255 octets accepted, reply over the limit) found by strengthening this contract, fixed in e311220. "
+         "Observation: run_tcp uses sock.write / sock.read (not write_all / read_exact) for the frame and the length prefix; a short write or read is not excluded (I/O schedule, outside this family).")
